@@ -32,7 +32,9 @@ class BlockRow:
 
 
 class Library:
-    def __init__(self):
+    def __init__(self, mode="nc"):
+        self.mode = mode
+        self.alloc_hooks = []
         self.mods = {}
         self.extra_types = []     # (predicate(value) -> set of type tags) hooks from other domains
         self.np = ModVal("numpy", self._np_table())
@@ -110,6 +112,13 @@ class Library:
             if r is not None:
                 return r
         if isinstance(T, TypeTag):
+            from . import idx as ix
+            if isinstance(v, ix.IArr):
+                return T is NDARRAY
+            if isinstance(v, ix.QScal):
+                return T is QSCALAR
+            if isinstance(v, ix.CScal):
+                return False
             if T is NDARRAY:
                 return (isinstance(v, RMat) and v.storage == "dense") or isinstance(v, (QMat, HMat, F4))
             if T is CSR:
@@ -336,6 +345,15 @@ class Library:
                 return ssqrt(x.fro2())
             if isinstance(x, RMat) and ord in ("fro", None):
                 return ssqrt(ncm.fro2(x.p))
+            from . import idx as ix
+            if isinstance(x, (list, tuple)):
+                x = ix.array_from_nested(list(x))
+            if isinstance(x, ix.IArr) and ord in (None, 2, "fro") and not x.quat:
+                ents = x.concrete_entries()
+                tot = Fraction(0)
+                for _, v in ents:
+                    tot = tot + (v * v if not isinstance(v, ix.CScal) else v.re * v.re + v.im * v.im)
+                return ssqrt(tot)
             h = _dispatch("np_norm", [x], ord=ord)
             if h is not _MISSING:
                 return h
@@ -378,7 +396,108 @@ class Library:
              "ndarray": NDARRAY, "floating": NPFLOATING, "float64": _TypeAndCall(float, lambda x: x), "pi": Fraction(_math.pi),
              "complex128": C128, "int64": I64}
         t["absolute"] = np_abs
+        t.update(self._np_idx_table())
         return t
+
+    def _np_idx_table(self):
+        """numpy functions that only make sense in the index-level domain."""
+        lib = self
+        from . import idx as ix
+
+        def np_array(v, dtype=None):
+            if isinstance(v, ix.IArr):
+                return v.copy()
+            if isinstance(v, (list, tuple)):
+                return ix.array_from_nested(v)
+            if is_reallike(v):
+                return v
+            raise OutOfReach(f"np.array of {type(v).__name__}")
+
+        def np_roll(a, shift, axis=None):
+            if not isinstance(a, ix.IArr) or axis is None:
+                raise OutOfReach("np.roll form")
+            n = a.vshape[axis]
+            snap = a._snapshot()
+
+            def fn(vi):
+                vi = list(vi)
+                vi[axis] = (vi[axis] - shift) % n      # np.roll(x, s)[i] = x[(i - s) mod n]
+                return snap(tuple(vi))
+            return ix.IArr.from_fn(a.vshape, fn, quat=a.quat, cplx=a.cplx)
+
+        def np_zeros_like(a, dtype=None):
+            if isinstance(a, ix.IArr):
+                return ix.zeros(a.vshape, quat=a.quat if dtype is None else dtype == QUAT, cplx=a.cplx)
+            if isinstance(a, RMat):
+                return RMat(NC.zero(*a.shape))
+            if isinstance(a, HMat):
+                return HMat(NC.zero(*a.shape))
+            if isinstance(a, QMat):
+                z = RMat(NC.zero(*a.shape))
+                return QMat([z, z, z, z])
+            raise OutOfReach("zeros_like")
+
+        def np_empty(shape, dtype=None):
+            return lib.alloc("zeros", shape, dtype)
+
+        def np_concatenate(parts, axis=0):
+            parts = list(parts)
+            if all(isinstance(p, ix.IArr) for p in parts) and all(p.ndim == 1 for p in parts) and axis == 0:
+                lens = [p.vshape[0] for p in parts]
+                if not all(isinstance(l, int) for l in lens):
+                    raise OutOfReach("concatenate of symbolic-length vectors")
+                snaps = [p._snapshot() for p in parts]
+                table = []
+                for k, l in enumerate(lens):
+                    for i in range(l):
+                        table.append((k, i))
+
+                def fn(vi):
+                    i = vi[0]
+                    if isinstance(i, int):
+                        k, j = table[i]
+                        return snaps[k]((j,))
+                    res = None
+                    for pos, (k, j) in reversed(list(enumerate(table))):
+                        x = snaps[k]((j,))
+                        res = x if res is None else ix.ite(i == pos, x, res)
+                    return res
+                return ix.IArr.from_fn([sum(lens)], fn, quat=parts[0].quat)
+            raise OutOfReach("np.concatenate form")
+
+        def np_real(a):
+            if isinstance(a, ix.IArr):
+                return a.real
+            if isinstance(a, ix.CScal):
+                return a.re
+            if is_reallike(a):
+                return a
+            raise OutOfReach("np.real")
+
+        def np_imag(a):
+            if isinstance(a, ix.IArr):
+                if a.quat:
+                    return a.map(lambda q: ix.QScal(Fraction(0)))   # observed numpy-quaternion behaviour
+                if not a.cplx:
+                    return a.map(lambda x: Fraction(0))
+                return a.imag
+            if isinstance(a, ix.CScal):
+                return a.im
+            if is_reallike(a):
+                return Fraction(0)
+            raise OutOfReach("np.imag")
+
+        def np_any(a):
+            if isinstance(a, ix.IArr):
+                ents = a.concrete_entries()
+                return sor(*[v for _, v in ents]) if ents else False
+            return a
+
+        def np_allclose(a, b, rtol=Fraction(1, 100000), atol=Fraction(1, 10**8)):
+            raise OutOfReach("np.allclose is decided only on concrete data (bounded stand-in)")
+
+        return {"array": np_array, "roll": np_roll, "zeros_like": np_zeros_like, "empty_like": np_zeros_like, "empty": np_empty,
+                "concatenate": np_concatenate, "real": np_real, "imag": np_imag, "any": np_any, "allclose": np_allclose}
 
     # allocation hook: the active domain decides what np.zeros / np.eye produce
     def alloc(self, what, shape, dtype):
@@ -386,8 +505,18 @@ class Library:
             r = h(what, shape, dtype)
             if r is not None:
                 return r
+        if isinstance(shape, list):
+            shape = tuple(shape)
         if not isinstance(shape, tuple):
             shape = (shape,)
+        if self.mode == "idx":
+            from . import idx as ix
+            isq = dtype == QUAT
+            isc = dtype is complex or dtype == C128 or (isinstance(dtype, _TypeAndCall) and dtype.t is complex)
+            if what in ("zeros", "empty"):
+                return ix.zeros(shape, quat=isq, cplx=isc)
+            if what == "eye":
+                return ix.eye(shape[0], shape[1], quat=isq)
         if len(shape) == 2:
             r, c = shape
             if dtype is None or dtype is float or dtype == F64 or (isinstance(dtype, _TypeAndCall) and dtype.t is float):
@@ -401,8 +530,6 @@ class Library:
                     return QMat([z, z, z, z])
                 return QMat([RMat(NC.eye(r)), z, z, z])
         raise OutOfReach(f"np.{what}{shape} dtype={dtype}")
-
-    alloc_hooks = []
 
     # -- quaternion ----------------------------------------------------------------------------
     def _quat_table(self):
@@ -428,16 +555,14 @@ class Library:
             h = _dispatch("q_scalar", list(a))
             if h is not _MISSING:
                 return h
-            for hook in Library.qscalar_hooks:
-                r = hook(*a)
-                if r is not None:
-                    return r
-            raise OutOfReach("quaternion scalar constructor in this domain")
+            from . import idx as ix
+            vals = [x if not isinstance(x, float) else Fraction(repr(x)) for x in a]
+            while len(vals) < 4:
+                vals.append(Fraction(0))
+            return ix.QScal(*vals)
 
         return {"as_float_array": as_float_array, "as_quat_array": as_quat_array,
                 "quaternion": _TypeAndCall(QSCALAR, quat)}
-
-    qscalar_hooks = []
 
     # -- scipy.sparse ----------------------------------------------------------------------------
     def _sparse_table(self):
